@@ -23,7 +23,8 @@ W(x) == IF x < 1000000000 THEN x ELSE IF x > 1900000000 THEN MOD - (2000000000 -
 
 CfgOfRun(e) ==
   [ len |-> e.len, nt |-> e.threads, hint |-> e.hint, base |-> 100,
-    consuming |-> e.consuming, clones |-> e.kind = "cloned_iter", panicAt |-> e.pnext, kind |-> e.kind ]
+    consuming |-> e.consuming, clones |-> e.kind = "cloned_iter", panicAt |-> e.pnext,
+    revive |-> IF "revive" \in DOMAIN e THEN e.revive ELSE 0, kind |-> e.kind ]
 
 Supported == {"next", "nextid", "chunk", "bnew", "bnext", "bdrop", "foreach", "eforeach", "fold",
               "values", "idsvalues", "skip", "len", "hasmore", "intoseq", "drop"}
@@ -48,7 +49,7 @@ TReset ==
   /\ UNCHANGED div
 
 TIgnored == l <= N /\ E.e # "Reset" /\ ign /\ Skip
-TOther == l <= N /\ ~ign /\ E.e \in {"Mem", "SrcCheck", "DropElem", "CloneElem", "End"} /\ Skip
+TOther == l <= N /\ ~ign /\ E.e \in {"Mem", "SrcCheck", "DropElem", "CloneElem", "Partial", "End"} /\ Skip
 TStop == /\ l <= N /\ ~ign /\ E.e \in {"Hang", "Abort"}
          /\ l' = l + 1 /\ ign' = TRUE /\ UNCHANGED <<vars, run, expv, div, cnt>>
 
@@ -109,7 +110,7 @@ TNextEnter ==
      ELSE IF pc[E.t] = "senter" THEN SeqEnter(E.t) /\ Matched(2) /\ UNCHANGED expv
      ELSE Diverge("next-enter")
 
-ExpectedItem == IF calls + 1 = cf.panicAt THEN -2 ELSE IF taken < cf.len THEN cf.base + taken ELSE -1
+ExpectedItem == IF calls + 1 = cf.panicAt THEN -2 ELSE IF HasItem THEN cf.base + taken ELSE -1
 
 TNextExit ==
   /\ IsEvent("NextExit") /\ ~ign
